@@ -216,11 +216,14 @@ def c13_trackers(out, tier, seed):
             stats = [eng.call_fn(eng.find_fn("ChainTracker::stats"), [s]) for s in singles]
             cr = eng.call_fn("collect_rhat", [Ref.to(RVec([Ref.to(s) for s in stats]))])
             multi = Ref.to(eng.call_fn(eng.find_fn("MultiChainTracker::new"), [m, p]))
+            mhist = []
             for t in range(k):
                 flat = [x for c in range(m) for x in steps[t][c]]
                 r = eng.call_fn(eng.find_fn("MultiChainTracker::step"), [multi, Ref.to(RVec(flat))])
                 if r.variant != "Ok":
                     raise PanicPath("MultiChainTracker::step returned Err")
+                mhist.append(multi.get().get("p_accept"))
+            phist.append(mhist)
             mr = eng.call_fn(eng.find_fn("MultiChainTracker::rhat"), [multi])
             return init, steps, stats, cr, mr, phist
         for ctx, res in eng.explore(run):
@@ -264,6 +267,18 @@ def c13_trackers(out, tier, seed):
                             lambda mo, w="mean": replay(mo, which=w), inst)
                     u.equal(ctx, "tracker variance equals the unbiased sample variance of the states it was fed",
                             st.get("sm2").a[d], ss / (k - 1), lambda mo, w="sm2": replay(mo, which=w), inst)
+            # multi-chain acceptance rate: one EMA update per chain row and update, from 0, comparing with the previous
+            # update's row (all-zero before the first update)
+            mh = phist[m]
+            pm = Num(0)
+            for t in range(k):
+                for c in range(m):
+                    prev = steps[t - 1][c] if t > 0 else [Num(0)] * p
+                    moved = z3.Or([steps[t][c][d].z() != Num.of(prev[d]).z() for d in range(p)])
+                    pm = (Num(1) - ALPHA_F32) * pm + ALPHA_F32 * Num(z3.If(moved, z3.RealVal(1), z3.RealVal(0)))
+                u.holds(ctx, "multi-chain acceptance rate: one EMA update (weight 0.01) per chain row, always in [0,1]",
+                        z3.And(Num.of(mh[t]).z() == pm.z(), Num.of(mh[t]).z() >= 0, Num.of(mh[t]).z() <= 1),
+                        lambda mo, w="multi_p_accept": replay(mo, which=w), inst)
             if mr.variant != "Ok":
                 out.inconclusive.append("c13_trackers: MultiChainTracker::rhat returned Err")
                 continue
@@ -287,7 +302,7 @@ def replay_trackers(model, init, steps, m, p, k, which):
     for j in range(4):
         cands.append(([0.0] * (m * p), [[round(rnd.uniform(-2, 2), 2) + 3.0 * ci for ci in range(m) for _ in range(p)]
                                         for _ in range(k)]))
-    if which == "p_accept":  # repeats of the initial state followed by moves, and moves followed by repeats
+    if which in ("p_accept", "multi_p_accept"):  # repeats of the initial state followed by moves, and moves followed by repeats
         base = [1.0 + i for i in range(m * p)]
         cands.append((base, [list(base) for _ in range(k - 1)] + [[v + 1.0 for v in base]]))
         cands.append((base, [[v + 1.0 for v in base]] + [[v + 1.0 for v in base] for _ in range(k - 1)]))
@@ -310,6 +325,19 @@ def replay_trackers(model, init, steps, m, p, k, which):
                     continue
                 rh = (vp_s / w_s) ** 0.5
                 spec["rhat[%d]" % d] = rh
+                if which == "multi_p_accept":
+                    al = float(np.float32(0.01))
+                    pm = 0.0
+                    for t in range(k):
+                        for c in range(m):
+                            prev = sts[t - 1][c * p:(c + 1) * p] if t > 0 else [0.0] * p
+                            cur = sts[t][c * p:(c + 1) * p]
+                            pm = (1 - al) * pm + al * (1.0 if any(a != b for a, b in zip(cur, prev)) else 0.0)
+                    got = res.get("multi_p_accept")
+                    got = float(got.replace("NaN", "nan")) if isinstance(got, str) else got
+                    if got is None or not approx_eq(got, pm, 1e-5, 1e-6) or not (0 <= got <= 1):
+                        bad.append(prof)
+                    continue
                 if which == "p_accept":
                     continue
                 if which in ("collect_rhat", "multi_rhat"):
@@ -371,11 +399,24 @@ def spec_autocov(xs):
     return out
 
 
+def decide(eng, ctx, cond):
+    """truth value of cond under the path condition: True / False / None (not determined)"""
+    if isinstance(cond, bool):
+        return cond
+    r1, _ = eng.check_unsat(ctx, z3.Not(cond), 20000)
+    if r1 == "unsat":
+        return True
+    r2, _ = eng.check_unsat(ctx, cond, 20000)
+    if r2 == "unsat":
+        return False
+    return None
+
+
 def c12_ess(out, tier, seed):
     eng = mir_load.load_engine()
-    configs = [(2, 4, 1), (2, 5, 1)]
+    configs = [(2, 4, 1), (2, 6, 1)]
     if tier == "thorough":
-        configs += [(2, 6, 1), (3, 4, 2), (2, 8, 1), (1, 5, 1)]
+        configs += [(2, 5, 1), (3, 4, 2), (2, 8, 1), (1, 7, 1)]
     u = MUnit(out, "C12", "c12_ess", eng,
               functions=["stats::ess (+ closures)", "stats::autocov (algorithm switch)", "stats::autocov_bf (+ closure)"],
               bounds=["(half-chains, draws per half-chain, params) in %s; every entry an arbitrary real; W, var+ arbitrary "
@@ -384,6 +425,7 @@ def c12_ess(out, tier, seed):
               out_of_scope=["the FFT autocovariance path (rustfft planner / SIMD kernels are not encodable): 'identical whichever "
                             "path' is decided only up to the selection rule n <= 100", "asymptotic statements (i.i.d., AR(1))",
                             "affine / permutation / time-reversal invariance (lemmas about the specification formula)"])
+    mirsym.MUL_MODE["mode"] = "uf"  # products / quotients of two symbolic reals abstracted (same shape in code and oracle)
     for (m, n, p) in configs:
         def run(ctx, m=m, n=n, p=p):
             xs = [ctx.fresh_real("x") for _ in range(m * n * p)]
@@ -408,23 +450,37 @@ def c12_ess(out, tier, seed):
                 for t in range(n):
                     avg = mean([acov[c][t] for c in range(m)])
                     rho.append(Num(1) - (w[d] - avg) / v[d])
-                # Geyer's initial positive, monotone sequence over pairs (0,1), (2,3), ...
-                tau_terms = Num(0)
-                prev = (rho[0] + rho[1]) if n >= 2 else Num(0)
-                alive = True  # symbolic "still summing"
+                # Geyer's initial positive, monotone sequence over pairs (0,1), (2,3), ...; which pairs are positive /
+                # clamped is read off the path condition (the implementation branches on exactly these comparisons)
                 total = Num(0)
+                prev = (rho[0] + rho[1]) if n >= 2 else Num(0)
+                undecided = False
                 for k in range(0, n - 1, 2):
                     pt = rho[k] + rho[k + 1]
-                    pos = pt.gt(0)
-                    alive = mirsym.b_and(alive, pos)
-                    capped = mirsym.ite(pt.gt(prev), prev, pt)
-                    total = mirsym.ite(alive, total + capped, total)
-                    prev = mirsym.ite(alive, capped, prev)
+                    pos = decide(eng, ctx, pt.gt(0))
+                    if pos is None:
+                        undecided = True
+                        break
+                    if not pos:
+                        break
+                    over = decide(eng, ctx, pt.gt(prev))
+                    if over is None:
+                        undecided = True
+                        break
+                    if over:
+                        pt = prev
+                    prev = pt
+                    total = total + pt
+                if undecided:
+                    u.holds(ctx, "the ESS computation branches on the sign and monotonicity of Geyer's pair sums", False,
+                            replay_ess_factory(m, n, p, d, xs), inst)
+                    continue
                 tau = Num(-1) + total * 2
-                want = Num(m * n) / tau
+                want = (Num(1) / tau) * (m * n)
                 u.equal(ctx, "ESS = (half-chains x length) / tau with tau = -1 + 2 * sum of Geyer's positive, monotone pair sums of "
                         "rho_t = 1 - (W - mean autocovariance_t)/var+", r.a[d], want, replay_ess_factory(m, n, p, d, xs), inst,
                         [tau.z() != 0])
+    mirsym.MUL_MODE["mode"] = "exact"
     # algorithm selection rule
     marks = []
     eng.override(r"^autocov_bf$", lambda e, c, a: (marks.append("bf"), ND(obj_array([Num(0)], (1, 1))))[1])
@@ -590,20 +646,30 @@ def replay_ess_factory(m, n, p, d, xs):
         if m % 2:
             return False, {"note": "odd number of half-chains cannot be produced through the public API"}
         tried = []
-        for k in range(6):
-            halves = [[round(rnd.gauss(0, 1) + (0.8 * j if k % 2 else 0), 3) for _ in range(n * p)] for j in range(m)]
-            # public API takes (m/2 chains, 2n draws): chain c = first half c, second half c + m/2
+        for k in range(10):
+            # positively autocorrelated half-chains (AR(1)), long enough for several positive pair sums: the native run
+            # need not have the size of the symbolic configuration, only exercise the same code
+            nn = [n, 24, 40, 60, 30, 48, 36, 80, 20, 52][k]
+            phi = [0.0, 0.6, 0.8, 0.9, 0.7, 0.85, 0.5, 0.9, 0.75, 0.8][k]
+            halves = []
+            for j in range(m):
+                x, row = 0.0, []
+                for _ in range(nn * p):
+                    x = phi * x + rnd.gauss(0, 1)
+                    row.append(round(x + (0.5 * j if k % 2 else 0), 3))
+                halves.append(row)
+            n_eff = nn
             c0 = m // 2
             data = []
             for c in range(c0):
                 data += halves[c] + halves[c + c0]
             data = [float(np.float32(v)) for v in data]
-            case = {"case": "split_rhat_ess", "shape": [c0, 2 * n, p], "data": data}
+            case = {"case": "split_rhat_ess", "shape": [c0, 2 * n_eff, p], "data": data}
             nat = native(case)
             flat = []
             for c in range(m):
                 flat += [float(np.float32(v)) for v in halves[c]]
-            want = float_ess(flat, m, n, p, d)
+            want = float_ess(flat, m, n_eff, p, d)
             bad = []
             for prof, res in nat.items():
                 got = res.get("ess", [None] * p)[d] if isinstance(res, dict) else None
